@@ -239,7 +239,7 @@ def run(ctx):
         # frame identity
         a = proc.args(pnode)
         vc = proc.calls("vad_classify")
-        okf = len(vc) == 1 and proc.canon(a[1]) == "vad_classify(ep->vad, frame)".replace("ep", proc.params[0][0]).replace("frame", proc.params[1][0]) and proc.canon(a[2], subst=False) == proc.params[1][0]
+        okf = len(vc) == 1 and proc.canon(a[1], calls=True) == "vad_classify(ep->vad, frame)".replace("ep", proc.params[0][0]).replace("frame", proc.params[1][0]) and proc.canon(a[2], subst=False) == proc.params[1][0]
         ctx.check(r4, okf, key(proc, "frame-identity"), proc.where(pnode), "the frame pushed / its flag are not the caller's frame and its classification: ep_push(%s)" % ", ".join(proc.canon(x) for x in a))
         # the speech count used for the decision is taken after the push
         sc = proc.calls("ep_speech_count")
@@ -284,7 +284,7 @@ def run(ctx):
     for rnode in proc.find("Return"):
         if not proc.ch(rnode):
             continue
-        rv = proc.canon(proc.ch(rnode)[0])
+        rv = proc.canon(proc.ch(rnode)[0], calls=True)
         ctx.check(r5b, rv in ("0", "ep_pop(%s, 0)" % pbase), key(proc, "return=" + rv), proc.where(rnode), "endpointer_process returns `%s`" % rv)
     # at most one pop per call
     pops = proc.calls("ep_pop")
